@@ -490,7 +490,12 @@ func getListenAddress(addr Address, listenAddr string) (string, error) {
 	// of 'addr'.
 	splitted := strings.Split(listenAddr, ":")
 	if len(splitted) == 1 && port != "" {
-		return splitted[0] + ":" + port, nil
+		combined := splitted[0] + ":" + port
+		// a stray bracket in 'listenAddr' must not yield an unusable address
+		if _, _, err := net.SplitHostPort(combined); err != nil {
+			return "", xerrors.Errorf("invalid address: %v", err)
+		}
+		return combined, nil
 	}
 
 	// If host and port in `listenAddr`, choose this one.
